@@ -4,7 +4,7 @@ from typing import Optional
 from ..core import Report
 from ..fjfront import Stl
 from ..pyfacts import Repo
-from ..stlrules import rule_carry, rule_ret_restore, rule_closure, rule_extent, rule_lut, rule_alias, rule_scratch, rule_const_fits, rule_carry_top, rule_jumpword_restore, rule_alias_safe, rule_exit_clean
+from ..stlrules import rule_carry, rule_ret_restore, rule_closure, rule_extent, rule_lut, rule_alias, rule_scratch, rule_const_fits, rule_carry_top, rule_jumpword_restore, rule_alias_safe, rule_exit_clean, rule_sibling_guards, rule_rem_fix
 
 FILES = ['flipjump/stl/hex/memory.fj', 'flipjump/stl/hex/logics.fj', 'flipjump/stl/hex/math.fj', 'flipjump/stl/hex/math_basic.fj',
          'flipjump/stl/hex/shifts.fj', 'flipjump/stl/hex/cond_jumps.fj', 'flipjump/stl/hex/mul.fj', 'flipjump/stl/hex/div.fj',
@@ -27,6 +27,8 @@ def check(rep: Report, repo: Optional[Repo] = None) -> None:
     rule_jumpword_restore(rep, stl, 'C04', FILES, 8)
     rule_alias_safe(rep, stl, 'C04', FILES, 1)
     rule_exit_clean(rep, stl, 'C04', FILES, 1)
+    rule_sibling_guards(rep, stl, 'C04', FILES, 6)
+    rule_rem_fix(rep, stl, 'C04', FILES, 1)
     rep.assumptions.append('footprints assume generic position: distinct symbolic operands of a compile-time `==` / `!=` aliasing test denote distinct variables')
     rep.not_decided += ['the flip-chain semantics of every macro for every operand (needs execution of FlipJump code): table dispatch '
                         'protocol, shifts, mul/div, comparisons beyond the leaf tables',
